@@ -12,10 +12,10 @@ use std::time::Duration;
 pub mod c03;
 pub mod c04;
 // pub mod c07s;
-// pub mod c11;
+pub mod c11;
 pub mod c12;
 // pub mod c15;
-// pub mod c17;
+pub mod c17;
 pub mod fake;
 
 /// One set of certificates as produced by the bundled generator
@@ -199,4 +199,175 @@ pub fn fresh_id() -> u64 {
     use std::sync::atomic::{AtomicU64, Ordering};
     static N: AtomicU64 = AtomicU64::new(0);
     N.fetch_add(1, Ordering::Relaxed)
+}
+
+// ------------------------------------------------------------------ raw peer actor
+use tokio::sync::mpsc;
+
+#[derive(Debug)]
+pub enum PeerEv {
+    Frame(Frame),
+    Ended(String),
+}
+/// A raw wire peer whose stream is owned by a background task: frames it receives are
+/// forwarded (so it never back-pressures the server), frames to send are queued.
+pub struct Peer {
+    pub out: mpsc::UnboundedSender<Frame>,
+    pub inc: mpsc::UnboundedReceiver<PeerEv>,
+    pub task: tokio::task::JoinHandle<()>,
+    pub received: Vec<Frame>,
+    pub ended: Option<String>,
+}
+impl Drop for Peer {
+    fn drop(&mut self) {
+        self.task.abort();
+    }
+}
+impl Peer {
+    /// `echo`: answer every Message frame with the same headers and "re:"+body (a
+    /// well-behaved replier)
+    pub fn spawn(mut s: BiStream, echo: bool) -> Peer {
+        let (out, mut out_rx) = mpsc::unbounded_channel::<Frame>();
+        let (inc_tx, inc) = mpsc::unbounded_channel::<PeerEv>();
+        let task = tokio::spawn(async move {
+            // the server drops the half of a stream it does not use (e.g. its send half for
+            // a publisher), so the read side may end while the write side stays usable
+            let mut read_open = true;
+            loop {
+                tokio::select! {
+                    f = out_rx.recv() => {
+                        match f {
+                            Some(f) => { if let Err(e) = s.send(f).await { let _ = inc_tx.send(PeerEv::Ended(format!("send failed: {e}"))); } }
+                            None => break,
+                        }
+                    }
+                    r = s.next(), if read_open => {
+                        match r {
+                            Some(Ok(f)) => {
+                                if echo {
+                                    if let Frame::Message(m) = &f {
+                                        let mut b = b"re:".to_vec();
+                                        b.extend_from_slice(&m.message[..m.message.len().min(256)]);
+                                        let _ = s.send(Frame::Message(selium_protocol::MessagePayload { headers: m.headers.clone(), message: b.into() })).await;
+                                    }
+                                }
+                                let _ = inc_tx.send(PeerEv::Frame(f));
+                            }
+                            Some(Err(e)) => { let _ = inc_tx.send(PeerEv::Ended(e.to_string())); read_open = false; }
+                            None => { let _ = inc_tx.send(PeerEv::Ended("end of stream".into())); read_open = false; }
+                        }
+                    }
+                }
+            }
+            // keep the stream open until dropped
+            std::future::pending::<()>().await;
+        });
+        Peer { out, inc, task, received: vec![], ended: None }
+    }
+    pub fn send(&self, f: Frame) {
+        let _ = self.out.send(f);
+    }
+    /// wait until a received frame satisfies `pred` (frames are kept in `received`)
+    pub async fn wait_for(&mut self, dl: Duration, pred: impl Fn(&Frame) -> bool) -> bool {
+        if self.received.iter().any(&pred) {
+            return true;
+        }
+        let t = tokio::time::Instant::now();
+        while t.elapsed() < dl {
+            match tokio::time::timeout(dl.saturating_sub(t.elapsed()).max(Duration::from_millis(1)), self.inc.recv()).await {
+                Ok(Some(PeerEv::Frame(f))) => {
+                    let hit = pred(&f);
+                    self.received.push(f);
+                    if hit {
+                        return true;
+                    }
+                }
+                Ok(Some(PeerEv::Ended(e))) => {
+                    self.ended = Some(e);
+                    return false;
+                }
+                Ok(None) => return false,
+                Err(_) => return false,
+            }
+        }
+        false
+    }
+    /// wait until the stream is observed to end (or an Error frame arrives)
+    pub async fn wait_end(&mut self, dl: Duration) -> bool {
+        if self.ended.is_some() {
+            return true;
+        }
+        let t = tokio::time::Instant::now();
+        while t.elapsed() < dl {
+            match tokio::time::timeout(dl.saturating_sub(t.elapsed()).max(Duration::from_millis(1)), self.inc.recv()).await {
+                Ok(Some(PeerEv::Frame(f))) => self.received.push(f),
+                Ok(Some(PeerEv::Ended(e))) => {
+                    self.ended = Some(e);
+                    return true;
+                }
+                Ok(None) => return true,
+                Err(_) => return false,
+            }
+        }
+        false
+    }
+    pub fn drain(&mut self) {
+        while let Ok(ev) = self.inc.try_recv() {
+            match ev {
+                PeerEv::Frame(f) => self.received.push(f),
+                PeerEv::Ended(e) => self.ended = Some(e),
+            }
+        }
+    }
+}
+
+pub fn body_of(f: &Frame) -> Option<&[u8]> {
+    match f {
+        Frame::Message(p) => Some(&p.message),
+        Frame::BatchMessage(b) => Some(b),
+        _ => None,
+    }
+}
+
+/// Sends tagged probe messages from `publ` until `sub` has received one (the server answers
+/// Ok before the socket reaches the router, so a single message may precede the
+/// subscriber's adoption). Returns false if none arrived within `dl`.
+pub async fn pubsub_probe(publ: &Peer, sub: &mut Peer, tag: &str, dl: Duration) -> bool {
+    let t = tokio::time::Instant::now();
+    let mut k = 0;
+    let tagb = tag.as_bytes().to_vec();
+    while t.elapsed() < dl {
+        k += 1;
+        publ.send(msg(format!("{tag}-{k}").into_bytes()));
+        let tb = tagb.clone();
+        if sub.wait_for(Duration::from_millis(if k < 20 { 25 } else { 200 }), move |f| body_of(f).map_or(false, |b| b.starts_with(&tb))).await {
+            return true;
+        }
+        if sub.ended.is_some() {
+            return false;
+        }
+    }
+    false
+}
+
+/// One request through `req`, expecting the echo replier's answer. Retries while the
+/// requestor/replier registrations settle.
+pub async fn reqrep_probe(req: &mut Peer, tag: &str, dl: Duration) -> bool {
+    let t = tokio::time::Instant::now();
+    let mut k = 0;
+    while t.elapsed() < dl {
+        k += 1;
+        let body = format!("{tag}-{k}");
+        let mut h = std::collections::HashMap::new();
+        h.insert("req_id".to_string(), format!("{k}"));
+        req.send(Frame::Message(selium_protocol::MessagePayload { headers: Some(h), message: body.clone().into_bytes().into() }));
+        let want = format!("re:{body}").into_bytes();
+        if req.wait_for(Duration::from_millis(if k < 20 { 30 } else { 250 }), move |f| body_of(f) == Some(&want[..])).await {
+            return true;
+        }
+        if req.ended.is_some() {
+            return false;
+        }
+    }
+    false
 }
